@@ -273,6 +273,12 @@ def _cases(draw, large=False):
             prog.remove('indicate_branches')
     else:
         prog = PROGRAMS[draw(st.integers(0, len(PROGRAMS) - 1))]
+    if table['reifications'] and draw(st.integers(0, 9)) == 0:
+        # a hand-built graph whose (implicit or explicit) top is itself a reified-looking node
+        role, concept, sr, tr = pick(draw, table['reifications'])
+        ts = [['r', ':instance', concept], ['r', sr, 'a'], ['r', tr, 'b'], ['a', ':instance', 'alpha'], ['b', ':instance', 'beta']]
+        return {'src': 'built', 'g': {'triples': ts, 'top': pick(draw, [None, None, 'r'])}, 'model': spec,
+                'program': pick(draw, [['dereify_edges'], ['dereify_edges', 'reify_edges'], ['dereify_edges', 'reify_attributes']])}
     if draw(st.integers(0, 6)) == 0:
         g = draw(graphs.wf_graphs(spec, max_vars=4, role_pool=(fwd, inv), concepts=[c for c in concepts if not c.startswith('"')] + [None]))
         return {'src': 'built', 'g': g, 'model': spec, 'program': prog}
